@@ -313,7 +313,7 @@ def _centroid_contract():
         else:
             prove.force(ctx, out.value)
             v = prove.find_named_sum(ctx, total)
-            ctx.oblige('util.centroid::normalises_by_the_total', v is not None)
+            ctx.oblige('util.centroid::normalises_by_the_total', v is not None, 'structure')
         r, cc = elems(ctx, out.value)
         if v is None:
             return None
@@ -365,7 +365,7 @@ def _rescale_body_contract(tag, order, mode, with_mask=False):
             return None
         calls = ctx.__dict__.get('ghost_map_coordinates', [])
         ok = len(calls) == 2 and calls[0]['order'] == 1 and calls[0]['mode'] == 'nearest' and calls[1]['order'] == order and calls[1]['mode'] == mode
-        ctx.oblige(name % 'interpolates_support_mask_then_image', ok,
+        ctx.oblige(name % 'interpolates_support_mask_then_image', ok, 'structure',
                    info={'calls': [(c_['order'], c_['mode']) for c_ in calls]})
         if not ok:
             return None
